@@ -11,7 +11,8 @@ RULE = ("centre sets: uniform random, jittered lattice, exactly square, exactly 
         "infinite, coordinates scaled / offset. decisive = rounded corners of every kept region pairwise distinct and no "
         "region diameter within 1e-9 of the cut-off. distinct = (kind, centres, cells kept, helper ring, cut-off class); "
         "non-trivial = at least one cell"
-        ' Added after the seeded rounds: centres 1e3..3e5 from the origin, a second lattice from the same elements.')
+        ' Added after the seeded rounds: centres 1e3..3e5 from the origin, a second lattice from the same elements.'
+        ' Small units (a cell 24 roundings wide).')
 MIN_DECISIVE = {"quick": 50, "thorough": 600}
 REQUIRED_COUNTERS = ["post:create_lattice", "cells:compared", "interning:checked"]
 REQUIRED_HIST = {"any": ["kind:square", "kind:hex", "kind:random", "kind:jitter"]}
